@@ -652,6 +652,9 @@ func C15(e *core.Env) {
 		refs := []string{}
 		total := 0
 		okOrig := true
+		if tcFor(e).check("C15 original", orig) {
+			res.Count("whole-module-text=equal")
+		}
 		origCompiled, oerr := pkg.CompileProfile(orig, false, nil)
 		if oerr != nil {
 			res.Violate("harness-error", "the generated original profile is rejected: "+core.Trunc(oerr.Error(), 300), map[string]any{"no_failing_input_found": true, "broken": "C15 generator", "profile": orig})
@@ -707,6 +710,9 @@ func C15(e *core.Env) {
 				}
 			}
 			replay := map[string]any{"original_profile": orig, "rewritten_profile": variant}
+			if tcFor(e).check("C15 rewritten", variant) {
+				res.Count("whole-module-text=equal")
+			}
 			compiled, cerr := pkg.CompileProfile(variant, false, nil)
 			if cerr != nil {
 				replay["error"] = core.Trunc(cerr.Error(), 1200)
